@@ -178,12 +178,17 @@ TreeFails(e) ==
          ELSE LET want == RootRef(T, d, rep0)
                   got == e.infos[li]
                   gotText == <<got.kind, got.val>>
-                  \* the root move the engine selected at the end of depth d
-                  sel == {j \in 1..Len(T.roots) : e.tree.root_txt[j] = e.sends[li].txt}
+                  \* the root move the engine selected at the end of depth d: the last board it handed over up to that line
+                  \* (normally the li-th send; a search that reports an improvement without handing its board over still
+                  \* "selects" what it sent last)
+                  upto == {i \in 1..Len(e.sends) : e.sends[i].q <= got.q}
+                  lastSent == IF upto = {} THEN 0 ELSE CHOOSE i \in upto : \A j \in upto : j <= i
+                  selTxt == IF lastSent = 0 THEN "" ELSE e.sends[lastSent].txt
+                  sel == {j \in 1..Len(T.roots) : e.tree.root_txt[j] = selTxt}
               IN (IF ScoreText(want) # gotText THEN {<<"C12", "value", D(<<e.cmd, d, ScoreText(want), gotText>>)>>} ELSE {})
                  \cup (IF sel = {} THEN {<<"C12", "selected-move-unknown", D(<<e.cmd, d>>)>>}
                        ELSE IF \E j \in sel : RootMoveRef(T, T.roots[j], d, rep0) # want
-                            THEN {<<"C12", "selected-move-does-not-attain", D(<<e.cmd, d, e.sends[li].txt>>)>>} ELSE {})
+                            THEN {<<"C12", "selected-move-does-not-attain", D(<<e.cmd, d, selTxt>>)>>} ELSE {})
          : d \in 1..e.D}
 
 Fails(e) ==
